@@ -230,8 +230,34 @@ pub fn check_std(rep: &mut Rep, secs: u64, nanos: u32) {
     canon_check(rep, "from_std", guard(|| Duration::from(sd)), want, &|| format!("Duration::from(std {secs}s+{nanos}ns)"));
 }
 
+/// the named constants are canonical and hold the documented counts
+pub fn check_consts(rep: &mut Rep) {
+    for (name, d, want) in [
+        ("ZERO", Duration::ZERO, 0i128),
+        ("MAX", Duration::MAX, MAX_NS),
+        ("MIN", Duration::MIN, MIN_NS),
+        ("EPSILON", Duration::EPSILON, 1),
+        ("MIN_POSITIVE", Duration::MIN_POSITIVE, 1),
+        ("MIN_NEGATIVE", Duration::MIN_NEGATIVE, -1),
+        ("default()", Duration::default(), 0),
+    ] {
+        if !rep.tick() {
+            continue;
+        }
+        rep.class("consts");
+        let p = d.to_parts();
+        if !is_canonical(p) || count(p) != want {
+            rep.fail("const/value", None, || format!("Duration::{name} = {} want count {}", fmt_parts(p), want));
+        }
+        check_readback(rep, d);
+    }
+}
+
 pub fn run(cfg: &Cfg, rep: &mut Rep) {
     let lat = gen::dur_lattice();
+    if rep.shard == 0 {
+        check_consts(rep);
+    }
     let sh = rep.shard as usize;
     let n = NSHARDS as usize;
     let npc = NPC as u64;
